@@ -302,11 +302,14 @@ def r6(c):
     cwc = one(cw, 'copy_within in read_some')
     ln = [cs for cs in b.calls(RB + '::len') if b.dominates(cs.node, cwc.node) and q.is_name(b, cs.args[0], 'self')]
     rng = q.sem(b, cwc.args[1])
-    okr = rng.kind == 'agg' and 'Range' in rng.extra.get('adt', '')
+    okr = rng.kind == 'agg' and 'Range' in rng.extra.get('adt', '') and len(rng.extra['a']) >= 1
     if okr:
-        s0, s1 = q.sem(b, rng.extra['a'][0]), q.sem(b, rng.extra['a'][1])
-        okr = q.sem_is_name(b, s0, 'self') and s0.proj[-1].endswith(':begin') and q.sem_is_name(b, s1, 'self') and s1.proj[-1].endswith(':end') and q.const_val(b, cwc.args[2]) == 0
-    c.ob('compaction/copy', okr, 'compaction copies buffer[begin..end] to offset 0', repr(rng), cwc.loc())
+        s0 = q.sem(b, rng.extra['a'][0])
+        okr = q.sem_is_name(b, s0, 'self') and bool(s0.proj) and s0.proj[-1].endswith(':begin') and q.const_val(b, cwc.args[2]) == 0
+        if okr and len(rng.extra['a']) > 1:      # begin..end  (begin.. copies a harmless surplus)
+            s1 = q.sem(b, rng.extra['a'][1])
+            okr = q.sem_is_name(b, s1, 'self') and bool(s1.proj) and s1.proj[-1].endswith(':end')
+    c.ob('compaction/copy', okr, 'compaction copies buffer[begin..end] (or begin..) to offset 0', repr(rng), cwc.loc())
     comp_reg = b.reach_set(cwc.ret, avoid={rd.node})
     stores = {}
     for i, s in b.assigns():
